@@ -220,15 +220,21 @@ def infoc (req : Json) : R Reply := do
   let bg ← asBool (← field i "baseGasp")
   let obs ← field req "obs"
   let oerr ← asOpt asStr (← field obs "err")
+  -- the shape of the repaired finding "infocompiler-missing-table", for classification of a recurrence
+  let mt := Json.bool (missingTable (mergeInfo base over) env bv bg)
   match infoCompile base over env envBase ctx bv bg with
   | .error e =>
     -- the statement: valid info (here: valid base and valid overrides) is applied without error
     let wf := wfInfo base && wfInfo over
-    return { model := Json.mkObj [("err", errJ e), ("_failed", partsJ [("compiles", !wf)]), ("_wf", Json.bool wf)],
+    return { model := Json.mkObj [("err", errJ e), ("_failed", partsJ [("compiles", !wf)]), ("_wf", Json.bool wf),
+                                  ("_missingTable", mt)],
              holds := !wf && oerr.isSome }
   | .ok o =>
     match oerr with
-    | some _ => return { model := outJ o, holds := false }
+    | some _ =>
+      return { model := (((outJ o).setObjVal! "_failed" (partsJ [("compiles", false)])).setObjVal! "_wf"
+                 (Json.bool (wfInfo base && wfInfo over))).setObjVal! "_missingTable" mt,
+               holds := false }
     | none =>
       let oo ← asOut obs
       -- the overridden font shows, in every field InfoCompiler handles, the documented value for the merged info
